@@ -61,12 +61,11 @@ INCLUDED_IN = {
     'string_sources': {'string_sources', 'parsed_modules', 'global_cx', 'checked_modules'},
     'errors': {'errors'},   # NO inclusion: group_errors only has keys for modules with errors
 }
-# (function, map) whose key is read out of the state itself (assumption A-11.2), one reason each
-TRUSTED_KEYS = {
-    ('samlang_services::rewrite::generate_auto_import_edits', 'parsed_modules'):
-        'key is the module of an error stored in state.errors under that module (guarded by the eq test in code_actions); '
-        'errors[m] is emptied when m is removed, so m is a key of parsed_modules (A-11.2)',
-}
+# maps for which "the module of a stored error is a key" holds (assumption A-11.2: errors are grouped by the module they are
+# located in, and errors[m] is emptied when m is removed)
+ERROR_MODULE_IS_KEY_OF = {'parsed_modules', 'string_sources'}
+# (function, map) whose key is trusted without a visible guard, one reason each (none needed at present)
+TRUSTED_KEYS = {}
 COMBINATORS = ('Option::<T>::and_then', 'Option::<T>::map', 'Option::<T>::filter', 'Option::<T>::is_some_and',
                'Option::<T>::map_or', 'Option::<T>::map_or_else', 'Option::<T>::inspect', 'Option::<T>::iter',
                'Option::<T>::into_iter', 'Option::<T>::as_ref', 'Option::<T>::copied', 'Option::<T>::cloned')
@@ -334,6 +333,32 @@ class Analysis:
                             r = self.justified(parent, bi, need_map, key, depth + 1) if depth < 4 else None
                             if r:
                                 return 'closure built where ' + r
+        # J5: the key was compared equal to the module of a stored error (`k == error.location.module_reference`); by A-11.2
+        # errors are only stored for loaded modules, so the key is a key of the module maps
+        if need_map in ERROR_MODULE_IS_KEY_OF:
+            for bi, bl in enumerate(body.blocks):
+                t = bl.term
+                if bl.cleanup or t[0] != 'call' or len(t[3]) != 2 or t[5] is None:
+                    continue
+                nm = callee(t)[1] or ''
+                if not (nm.endswith('PartialEq>::eq') or nm.endswith('PartialEq::eq')):
+                    continue
+                ops = []
+                for o in t[3]:
+                    r, pth = operand_root(body, o)
+                    ops.append((None, ()) if r is None else (_norm_key(self.prog, body, r, pth), field_names(pth)))
+                hit = False
+                for (ka, na), (kb, nb) in ((ops[0], ops[1]), (ops[1], ops[0])):
+                    if ka == key and tuple(nb[-2:]) == ('location', 'module_reference'):
+                        hit = True
+                if not hit or t[4] is None or t[4].proj:
+                    continue
+                nb_ = body.blocks[t[5]]
+                st = nb_.term
+                if st[0] == 'switch' and st[1][0] in ('c', 'm') and st[1][1].local == t[4].local and not st[1][1].proj:
+                    true_tg = st[3]
+                    if all(tg != true_tg for _, tg in st[2]) and cfg.edges_dominate([(t[5], true_tg)], bb):
+                        return 'compared equal to the module of a stored error (errors are stored for loaded modules only, A-11.2)'
         # key is a parameter: every caller must justify it at the call (private helpers only)
         if key[0] == body.id and body.kind != 'closure' and 1 <= key[1] <= body.nargs and not key[2] and depth < 3:
             if body.pub:
